@@ -1,5 +1,5 @@
 (* Whole counts: from the state Election.__init__ builds for a well-formed profile, every state a wigm / wigm-prf(-batch) /
-   scotland count reaches without crashing satisfies the Gregory invariant (Proofs/Conserve.v). *)
+   scotland / cfer(-batch) / mpls count reaches without crashing satisfies the Gregory invariant (Proofs/Conserve.v). *)
 From Coq Require Import ZArith List Bool String Lia ZifyBool PArith.
 From Droop Require Import Model.KernelBase Model.Str Model.Arith Model.Prelude Model.State Model.Prims Model.RulesGregory
   Model.Election Proofs.CmdMeta Proofs.Zlike Proofs.Gregory Proofs.Forward Proofs.Conserve.
@@ -26,7 +26,7 @@ Definition wf_profile (pr : profile) : Prop :=
 Definition ballot_total (pr : profile) : Z :=
   fold_right (fun mr acc => (match snd mr with [] => 0 | _ => fst mr end) + acc) 0 (pr_ballots pr).
 
-Definition greg_rule (r : rule) : Prop := r = RWigm \/ r = RWigmPrf \/ r = RScotland.
+Definition greg_rule (r : rule) : Prop := r = RWigm \/ r = RWigmPrf \/ r = RScotland \/ r = RCfer \/ r = RMpls.
 
 Definition add_cand (s : est) (p : pcand) : est :=
   let c := init_cand A p in
@@ -117,7 +117,7 @@ Notation GNb pr := (GN A S ZL (S * ballot_total pr)).
 Lemma rule_triple r pr : greg_rule r ->
   triple est (@crashed A) (Pre A S ZL (S * ballot_total pr)) (rule_cmd A cfg r) (GNb pr) (GNb pr) (GNb pr).
 Proof.
-  intros [ -> | [ -> | -> ] ]; cbn [rule_cmd]; [apply wigm_triple|apply wigm_prf_triple|apply scotland_triple]; assumption.
+  intros [ -> | [ -> | [ -> | [ -> | -> ] ] ] ]; cbn [rule_cmd]; [apply wigm_triple|apply wigm_prf_triple|apply scotland_triple|apply cfer_triple|apply mpls_triple]; assumption.
 Qed.
 
 Theorem count_conserves r pr fuel s k : greg_rule r -> wf_profile pr ->
